@@ -10,7 +10,7 @@ value first, faces first) and fully symbolic.
 """
 import os
 
-from vp.extract import Fn
+from vp.extract import Fn, REPO
 from vp.driver import Unit, Run, VERIF, sh
 
 LEVEL = "model_checking"
@@ -677,7 +677,7 @@ def replay_bin(src=None, out=None):
     src, out = src or REPLAY_SRC, out or REPLAY_BIN
     if out not in _built:
         os.makedirs(os.path.dirname(out), exist_ok=True)
-        inc = ["-I/repo/src/Bitmap_cubical_complex/include", "-I/repo/src/common/include"]
+        inc = ["-I" + REPO + "/src/Bitmap_cubical_complex/include", "-I" + REPO + "/src/common/include"]
         rc, o, e, s = sh(["g++", "-std=c++17", "-O1", "-w"] + inc + [src, "-o", out, "-ltbb"], 300)
         if rc != 0:
             raise RuntimeError("replay build failed: " + (o + e)[-1500:])
@@ -737,7 +737,7 @@ def native(tier, seed, bdir, only=None):
         return []
     os.makedirs(bdir, exist_ok=True)
     exe = os.path.join(bdir, "cubical_values")
-    inc = ["-I/repo/src/Bitmap_cubical_complex/include", "-I/repo/src/common/include"]
+    inc = ["-I" + REPO + "/src/Bitmap_cubical_complex/include", "-I" + REPO + "/src/common/include"]
     rc, o, e, s = sh(["g++", "-std=c++17", "-O2", "-w"] + inc + [os.path.join(VERIF, "native", "cubical_values.cpp"), "-o", exe, "-ltbb"], 600)
     if rc != 0:
         return [{"unit": "native.values_and_order", "status": "error", "notes": (o + e)[-1500:], "cases": 0, "failures": []}]
